@@ -47,7 +47,8 @@ macro_rules! endpoints_fn {
 }
 
 /// frame skeletons: the link/IP framing bytes are fixed, everything else symbolic
-/// 0 = raw IPv4 (IHL symbolic), 1 = Ethernet + IPv4, 2 = raw IPv6, 3 = Ethernet + IPv6
+/// 0 = raw IPv4 (IHL symbolic), 1 = Ethernet + IPv4, 2 = raw IPv6, 3 = Ethernet + IPv6,
+/// 4 = NULL/loopback + IPv6, 5 = NULL/loopback + IPv4
 pub fn skeleton<const N: usize>(kind: u8) -> [u8; N] {
     let mut f: [u8; N] = kani::any();
     match kind {
@@ -65,10 +66,24 @@ pub fn skeleton<const N: usize>(kind: u8) -> [u8; N] {
             f[0] = 0x60 | (f[0] & 0x0f);
             kani::assume(!((f[12] == 0x08 && f[13] == 0x00) || (f[12] == 0x86 && f[13] == 0xdd)));
         }
-        _ => {
+        3 => {
             f[12] = 0x86;
             f[13] = 0xdd;
             f[14] = 0x60 | (f[14] & 0x0f);
+        }
+        4 => {
+            // NULL/loopback framing as the packet parser recognises it: 1e 00 xx xx + IPv6
+            f[0] = 0x1e;
+            f[1] = 0x00;
+            f[4] = 0x60 | (f[4] & 0x0f);
+            kani::assume(!((f[12] == 0x08 && f[13] == 0x00) || (f[12] == 0x86 && f[13] == 0xdd)));
+        }
+        _ => {
+            // NULL/loopback + IPv4
+            f[0] = 0x1e;
+            f[1] = 0x00;
+            f[4] = 0x40 | (f[4] & 0x0f);
+            kani::assume(!((f[12] == 0x08 && f[13] == 0x00) || (f[12] == 0x86 && f[13] == 0xdd)));
         }
     }
     f
@@ -113,6 +128,16 @@ pub mod tcp {
     #[kani::unwind(90)]
     pub fn c18_tcp_eth_v6() {
         same_source::<74>(3)
+    }
+    #[kani::proof]
+    #[kani::unwind(70)]
+    pub fn c18_tcp_null_v4() {
+        same_source::<64>(5)
+    }
+    #[kani::proof]
+    #[kani::unwind(90)]
+    pub fn c18_tcp_null_v6() {
+        same_source::<64>(4)
     }
 }
 
@@ -197,6 +222,11 @@ macro_rules! flow_mod {
             #[kani::unwind(90)]
             pub fn c18_eth_v6_n16() {
                 same_flow::<74>(3, 16)
+            }
+            #[kani::proof]
+            #[kani::unwind(70)]
+            pub fn c18_null_v4_n4() {
+                same_flow::<64>(5, 4)
             }
         }
     };
